@@ -102,7 +102,10 @@ pub struct Verdict {
 
 /// Offline oracle over a merged history. `final_ops` were executed after all threads joined
 /// (quiescence): the last of them is a clear_with.
-pub fn check_history(ops: &[OpRec], quiescent_from: usize, check_slice_order: bool) -> Vec<Verdict> {
+pub fn check_history(ops: &[OpRec], interval_rules: usize, check_slice_order: bool) -> Vec<Verdict> {
+    // interval_rules == 0: stamps are globally ordered, all rules apply; 1: stamps are thread-local (no cross-thread
+    // synchronisation added by the monitor), only order-free rules apply
+    let ordered = interval_rules == 0;
     let mut out: Vec<Verdict> = Vec::new();
     let mut push: HashMap<u64, (u64, u64)> = HashMap::new(); // id -> (call, ret)
     for o in ops {
@@ -143,7 +146,7 @@ pub fn check_history(ops: &[OpRec], quiescent_from: usize, check_slice_order: bo
                         detail: jo! {"what" => "a value was observed that was never pushed", "value" => format!("{:#x}", v), "op" => o.to_json()},
                     }),
                     Some((pcall, _)) => {
-                        if *pcall > o.ret {
+                        if ordered && *pcall > o.ret {
                             out.push(Verdict {
                                 sig: "C05:observed-before-push".into(),
                                 detail: jo! {"what" => "a value was observed by an operation that returned before its push was called", "value" => format!("{:#x}", v), "op" => o.to_json()},
@@ -186,7 +189,7 @@ pub fn check_history(ops: &[OpRec], quiescent_from: usize, check_slice_order: bo
     for (i, o) in ops.iter().enumerate() {
         let is_snap = matches!(o.kind, Kind::Snap | Kind::SnapVec);
         let is_emp = matches!(o.kind, Kind::IsEmpty(_));
-        if !(is_snap || is_emp) {
+        if !(is_snap || is_emp) || !ordered {
             continue;
         }
         let seen: HashSet<u64> = o.slices.iter().flatten().cloned().collect();
@@ -243,7 +246,6 @@ pub fn check_history(ops: &[OpRec], quiescent_from: usize, check_slice_order: bo
             }
         }
     }
-    let _ = quiescent_from;
     out
 }
 
@@ -286,6 +288,10 @@ struct Exec {
 
 /// One concurrent execution: prefill, run role programs under `policy`, join, final quiescent ops.
 fn execute(r: &mut Rng, prefill: usize, roles: Vec<(u8, Vec<Step>)>, policy: Policy, log: bool, use_ctx: bool) -> Exec {
+    execute2(r, prefill, roles, policy, log, use_ctx, false)
+}
+
+fn execute2(r: &mut Rng, prefill: usize, roles: Vec<(u8, Vec<Step>)>, policy: Policy, log: bool, use_ctx: bool, nosync: bool) -> Exec {
     let bucket: Arc<AtomicBucket<u64>> = Arc::new(AtomicBucket::new());
     let ctx = Ctx::new(policy, log);
     let gstamp = Arc::new(AtomicU64::new(1));
@@ -308,7 +314,17 @@ fn execute(r: &mut Rng, prefill: usize, roles: Vec<(u8, Vec<Step>)>, policy: Pol
         let seed = r.next_u64();
         let role = i as u8;
         let body = move || {
-            let st = move || if use_ctx { c.stamp() } else { g.fetch_add(1, Ordering::SeqCst) };
+            let local = std::cell::Cell::new(0u64);
+            let st = move || {
+                if use_ctx {
+                    c.stamp()
+                } else if nosync {
+                    local.set(local.get() + 1);
+                    ((role as u64) << 40) | local.get()
+                } else {
+                    g.fetch_add(1, Ordering::SeqCst)
+                }
+            };
             run_program(&b, role, &prog, 0, &st)
         };
         if use_ctx {
@@ -654,13 +670,13 @@ fn run_small_concurrent(a: &Args) -> Report {
         if !miri || r.chance(1, 2) {
             roles.push((1u8, gen_program(&mut r, 1, if miri { 2 } else { 6 })));
         }
-        let ex = execute(&mut r, prefill, roles, Policy::Off, false, false);
+        let ex = execute2(&mut r, prefill, roles, Policy::Off, false, false, true);
         let mut h = 0u64;
         for o in ex.ops.iter().filter(|o| !matches!(o.kind, Kind::Push(_))) {
-            h = mix(h, o.call ^ o.ret.rotate_left(17));
+            h = mix(h, o.call ^ o.ret.rotate_left(17) ^ (o.slices.iter().map(|s| s.len() as u64).sum::<u64>() << 7));
         }
         rep.case(h, true);
-        for v in check_history(&ex.ops, 0, true) {
+        for v in check_history(&ex.ops, 1, true) {
             rep.violation(v.sig, v.detail.set("execution", ex.desc.clone()).set("leg", J::s(a.leg.clone())));
         }
         if rep.want_sample() {
